@@ -25,6 +25,11 @@ Tie (DESIGN §6 C15):
     dict is part of the dump and in-place mutation of them is an op (who sees it = who shares the container);
     the warnings of paste_paths / += / update_energies (which loop gave up, at which length) are captured and
     compared with the model.
+ 5. audit follow-up: every program runs at a dyadic scale S (order values / interfaces / targets are h/S, read back
+    exactly; the model gets the integers h), so threshold shifts below 1 are visible; a family of LONG paths
+    (64 / 200 / 1000 frames, limits around the length); paste_paths has no legitimate exception any more (fix
+    960b399; the witness is replayed from corpus/C15); reversing an over-limit path twice is evaluated, judged
+    against the model's closed form and counted.
 """
 from __future__ import annotations
 
@@ -46,15 +51,64 @@ def _imports():
 
 
 # --------------------------------------------------------------------------- values <-> tokens
+# Order values, interfaces and classification targets are DYADIC: an op program starts with ("scale", S) (S a power
+# of two, default 1) and every order-like integer h in it means the real value h / S (exact as a float).  The Lean
+# model is unchanged: it is fed the integers h, i.e. S times the real values (all comparisons are scale invariant; an
+# order function a*pos ± b*vel + c is sent as (a*S, b*S, c)).  Values read back from the real objects are converted
+# EXACTLY (fractions), never rounded: a threshold shifted by less than 1 in the code cannot hide behind int().
+_SC = [1]
+
+
+def set_scale(S):
+    _SC[0] = int(S)
+
+
+def real(h):
+    """the real value h / S as the code sees it: a Python int when integral and even (as before: ints and floats are
+    mixed on purpose), else an exact float"""
+    S = _SC[0]
+    if h % S == 0 and (h // S) % 2 == 0:
+        return int(h // S)
+    return h / S
+
+
+def exact(x, S=1):
+    """x*S as an int when integral, else as an exact Fraction; 'nan' / 'inf' for non-finite values"""
+    if type(x) is int:
+        return x * S
+    try:
+        y = x * S                      # S is a power of two: exact unless it overflows
+        if y == y and abs(y) < 1e300 and float(y).is_integer():
+            return int(y)
+    except Exception:  # noqa: BLE001
+        pass
+    from fractions import Fraction
+    try:
+        f = Fraction(x) * S
+    except (ValueError, OverflowError):
+        return "nonfinite:" + repr(float(x))
+    except TypeError:
+        f = Fraction(float(x)) * S
+    return int(f.numerator) if f.denominator == 1 else f
+
+
+def sc(x):
+    return exact(x, _SC[0])
+
+
+def tok(x):
+    return str(sc(x))
+
+
 def opt(x):
-    return "-" if x is None else str(int(x))
+    return "-" if x is None else str(exact(x))
 
 
 class LinOrder:
     """order function [a*pos + (±b)*vel + c]; the sign is − when vel_rev (velocity dependence)"""
 
     def __init__(self, a, b, c, vd):
-        self.a, self.b, self.c = a, b, c
+        self.a, self.b, self.c = a, b, real(c)      # c comes in scaled units
         self.velocity_dependent = bool(vd)
 
     def calculate(self, system):
@@ -70,7 +124,7 @@ def set_field(np, s, field, value):
             s.config = (str(value[0]), int(value[1]))
     elif field == "order":
         # integer-valued order parameters: even values are stored as Python ints, odd ones as floats
-        s.order = [int(x) if int(x) % 2 == 0 else float(x) for x in value]
+        s.order = [real(x) for x in value]
     elif field == "velrev":
         s.vel_rev = bool(value)
     elif field == "ekin":
@@ -103,8 +157,8 @@ def field_token(field, value):
 
 def sys_fields(s):
     """all fields of a System as a tuple of plain values (no identities)"""
-    return (int(s.config[0]), int(s.config[1]), tuple(int(x) for x in s.order), int(bool(s.vel_rev)),
-            opt(s.ekin), opt(s.vpot), int(s.pos[0]), int(s.vel[0]), int(s.box[0]), int(s.temperature["t"]))
+    return (int(s.config[0]), int(s.config[1]), tuple(sc(x) for x in s.order), int(bool(s.vel_rev)),
+            opt(s.ekin), opt(s.vpot), exact(s.pos[0]), exact(s.vel[0]), exact(s.box[0]), exact(s.temperature["t"]))
 
 
 def sys_token(s, oo, ids=""):
@@ -245,12 +299,14 @@ def path_token(p, refs):
     status = 0 if p.status == "" else int(p.status[1:])
     gen = None if p.generated is None else p.generated[1]
     wts = None if p.weights is None else p.weights[0]
-    return (f"P {opt(p.maxlen)} {status} {opt(gen)} {opt(p.path_number)} {opt(wts)} {int(p.weight)} "
-            f"{int(p.time_origin)} " + lst(p.phasepoints, lambda s: f"r{refs[id(s)]}"))
+    return (f"P {opt(p.maxlen)} {status} {opt(gen)} {opt(p.path_number)} {opt(wts)} {exact(p.weight)} "
+            f"{exact(p.time_origin)} " + lst(p.phasepoints, lambda s: f"r{refs[id(s)]}"))
 
 
-def op_tokens(op):
+def op_tokens(op, S=1):
     k = op[0]
+    if k == "scale":
+        return ""
     if k == "new":
         return f"new {opt(op[1])} {op[2]}"
     if k == "sys":
@@ -264,7 +320,7 @@ def op_tokens(op):
     if k == "copy":
         return f"copy {op[1]}"
     if k == "rev":
-        of = "-" if op[2] is None else "f {} {} {} {}".format(op[2][0], op[2][1], op[2][2], int(op[2][3]))
+        of = "-" if op[2] is None else "f {} {} {} {}".format(op[2][0] * S, op[2][1] * S, op[2][2], int(op[2][3]))
         return f"rev {op[1]} {of} {int(op[3])}"
     if k == "paste":
         return f"paste {op[1]} {op[2]} {int(op[3])} {opt(op[4])}"
@@ -308,30 +364,31 @@ def op_tokens(op):
 
 
 def classify_obj(p, intf, target):
-    """every classification method of the path object, canonical text (= Infretis.PathAlg.showCls)"""
+    """every classification method of the path object, canonical text (= Infretis.PathAlg.showCls); `intf` and
+    `target` are in scaled units"""
     def vi(get):
         try:
             v, i = get()
-            return f"{int(v)},{int(i)}"
+            return f"{tok(v)},{int(i)}"
         except Exception as e:  # noqa: BLE001
             return err_kind(e)
     try:
-        s, e, m, c = p.check_interfaces([float(x) for x in intf])
+        s, e, m, c = p.check_interfaces([real(x) for x in intf])
         chk = f"{s},{e},{m}," + ("".join("1" if b else "0" for b in c) if c else "-")
     except Exception as ex:  # noqa: BLE001
         chk = err_kind(ex)
     try:
-        suc = str(bool(p.success(float(target))))
+        suc = str(bool(p.success(real(target))))
     except Exception as ex:  # noqa: BLE001
         suc = err_kind(ex)
     sp = ep = "-"
     if intf:
         try:
-            sp = str(p.get_start_point(float(intf[0]), float(intf[-1])))
+            sp = str(p.get_start_point(real(intf[0]), real(intf[-1])))
         except Exception as ex:  # noqa: BLE001
             sp = err_kind(ex)
         try:
-            ep = str(p.get_end_point(float(intf[0]), float(intf[-1])))
+            ep = str(p.get_end_point(real(intf[0]), real(intf[-1])))
         except Exception as ex:  # noqa: BLE001
             ep = err_kind(ex)
     return f"min={vi(lambda: p.ordermin)};max={vi(lambda: p.ordermax)};chk={chk};suc={suc};sp={sp};ep={ep}"
@@ -365,6 +422,8 @@ class Real:
         self.branches = []
         self.classified = set()
         self.cap = None       # Capture of the module's warnings (set by run_program)
+        self.notes = []       # evaluated but not judged (recorded in the evidence)
+        set_scale(1)
 
     def warns(self):
         return warn_tokens(self.cap.take()) if self.cap is not None else []
@@ -494,6 +553,8 @@ class Real:
             cap = ml
         elif back.maxlen == forw.maxlen:
             cap = back.maxlen
+        elif back.maxlen is None or forw.maxlen is None:
+            cap = forw.maxlen if back.maxlen is None else back.maxlen     # "in case one is None, the other will be picked"
         else:
             cap = max(back.maxlen, forw.maxlen)
         full = list(reversed(back.phasepoints)) + list(forw.phasepoints[1:] if ov else forw.phasepoints)
@@ -525,7 +586,7 @@ class Real:
                 if of is not None and of.velocity_dependent:
                     t = s.copy()
                     t.vel_rev = not s.vel_rev
-                    f[2] = tuple(int(x) for x in of.calculate(t))
+                    f[2] = tuple(sc(x) for x in of.calculate(t))
             out.append(tuple(f))
         return out
 
@@ -548,7 +609,7 @@ class Real:
         # twice
         if fits:
             consistent = of is None or not (of.velocity_dependent and rv) or all(
-                tuple(int(x) for x in of.calculate(s)) == tuple(int(x) for x in s.order) for s in p.phasepoints)
+                tuple(sc(x) for x in of.calculate(s)) == tuple(sc(x) for x in s.order) for s in p.phasepoints)
             back2 = new.reverse(of, rv)
             g2 = [sys_fields(s) for s in back2.phasepoints]
             w2 = [sys_fields(s) for s in p.phasepoints]
@@ -557,6 +618,23 @@ class Real:
                 w2 = [w[:2] + w[3:] for w in w2]
             if g2 != w2:
                 self.bad("C15:reverse-twice", "reversing twice does not restore the frames")
+        else:
+            # a path longer than its limit (reachable: load_paths_from_disk, lowered maxlen): the first reversal
+            # truncates, so "twice restores" cannot hold (Lean: reverse_reverse_overlimit_counterexample).  Evaluated
+            # and recorded, and judged against what the model proves: twice = the kept frames, in original order.
+            back2 = new.reverse(of, rv)
+            g2 = [sys_fields(s) for s in back2.phasepoints]
+            keep = max(p.maxlen, 0)
+            w2 = [sys_fields(s) for s in p.phasepoints][len(p.phasepoints) - keep:] if keep else []
+            consistent = of is None or not (of.velocity_dependent and rv) or all(
+                tuple(sc(x) for x in of.calculate(s)) == tuple(sc(x) for x in s.order) for s in p.phasepoints)
+            if not consistent:
+                g2 = [g[:2] + g[3:] for g in g2]
+                w2 = [w[:2] + w[3:] for w in w2]
+            self.branches.append("rev:twice-overlimit-not-restored" if g2 != [sys_fields(s) for s in p.phasepoints]
+                                 else "rev:twice-overlimit-restored")
+            if g2 != w2:
+                self.bad("C15:reverse-twice-overlimit", "reversing an over-limit path twice does not give its last maxlen frames")
         # independence of the reversed copy
         self._scratch_mutation_leaves_state(p.reverse(of, rv), "C15:reverse-not-independent",
                                             "assigning fields of a reversed path's frames changed another path",
@@ -588,7 +666,9 @@ class Real:
         k = op[0]
         P = self.paths
         ok = lambda i: isinstance(i, int) and 0 <= i < len(P)  # noqa: E731
-        if k == "new":
+        if k == "scale":
+            set_scale(op[1])
+        elif k == "new":
             P.append(self.Path(maxlen=op[1], time_origin=op[2]))
             self.log.append("new")
         elif k == "sys":
@@ -662,8 +742,11 @@ class Real:
             except Exception as e:  # noqa: BLE001
                 self.log.append(err_kind(e))
                 self.branches.append("paste:" + err_kind(e))
-                # the only legitimate exception: max(None, int) for two different limits one of which is None
-                if not (op[4] is None and back.maxlen != forw.maxlen and None in (back.maxlen, forw.maxlen)):
+                # paste_paths has no legitimate exception: the property quantifies over all limits
+                if op[4] is None and back.maxlen != forw.maxlen and None in (back.maxlen, forw.maxlen):
+                    self.bad("C15:paste:one-limit-none-raises", f"paste_paths(back.maxlen={back.maxlen}, forw.maxlen="
+                             f"{forw.maxlen}, maxlen=None) raised {type(e).__name__}: {e} (the other limit must be picked)")
+                else:
                     self.bad("C15:paste-raises", f"paste_paths raised {type(e).__name__}: {e}")
                 return None
             if self.check:
@@ -690,7 +773,7 @@ class Real:
             if not (ok(op[1]) and 0 <= op[2] < len(P[op[1]].phasepoints)):
                 return self.log.append("skip")
             try:
-                P[op[1]].phasepoints[op[2]].order[0] = float(op[3])
+                P[op[1]].phasepoints[op[2]].order[0] = real(op[3])
                 self.log.append("setitem")
             except IndexError:
                 self.log.append("err:index")
@@ -713,7 +796,7 @@ class Real:
             got = classify_obj(p, intf, target)
             self.log.append(got)
             if self.check and p.phasepoints and all(len(s.order) > 0 for s in p.phasepoints):
-                ops = [int(s.order[0]) for s in p.phasepoints]
+                ops = [sc(s.order[0]) for s in p.phasepoints]
                 want = expected_parts(ops, intf, target)
                 parts = dict(x.split("=", 1) for x in got.split(";"))
                 bad = [k_ for k_, w in want.items() if parts[k_] != w]
@@ -1096,9 +1179,8 @@ def systematic_pastes(nmax):
                         prog += [("sys", 0, plain_vals(k, k, k % 2 == 0)) for k in range(nb)]
                         prog += [("sys", 1, plain_vals(10 + k, 10 + k, k % 3 == 0)) for k in range(nf)]
                         prog += [("pset", 0, "maxlen", mb), ("pset", 1, "maxlen", mf), ("paste", 0, 1, ov, ml)]
-                        if not (ml is None and mb != mf and None in (mb, mf)):
-                            prog += [("rev", 2, None, True), ("copy", 2), ("classify", 2, 1, [0, 1, 2])]
-                        yield prog
+                        prog += [("rev", 2, None, True), ("copy", 2), ("classify", 2, 1, [0, 1, 2])]
+                        yield [("scale", 4)] + prog
 
 
 def systematic_histories(maxlen):
@@ -1124,7 +1206,7 @@ def systematic_histories(maxlen):
                         prog.append(("seti", 0, k, v))
                     prog.append(("classify", 0, 1, [0, 1, 2]))
                     prog.append(("classify", 0, 2, [0, 2, 2]))
-                    yield prog
+                    yield [("scale", 4)] + prog
 
 
 def gen_alias(rng):
@@ -1289,6 +1371,42 @@ def systematic_upd(nmax):
                     yield base + [("new", None, 0), ("paste", 0, 1, False, None), ("upd", 2, ek, vp), ("upd", 0, vp, ek)]
 
 
+SCALES = (1, 2, 4, 4, 8, 1 << 20)
+
+
+def prog_scale(prog):
+    return next((op[1] for op in prog if op[0] == "scale"), 1)
+
+
+def prog_line(prog):
+    S = prog_scale(prog)
+    return "prog " + " ".join(t for t in (op_tokens(op, S) for op in prog) if t)
+
+
+def systematic_long(plan, light=False):
+    """LONG paths (64 / 200 / 1000 frames) with the limit just below / at / above the length (set after the frames
+    are in) or None, through copy, reverse (with and without order re-computation), +=, paste (explicit limit below /
+    at / above the total), ==, classify and get_shooting_point — length-dependent behaviour is invisible on the short
+    paths of the random programs"""
+    for n, lims in plan:
+        frames = [("sys", 0, plain_vals((k * 5) % 9 - 2, k, k % 3 == 0)) for k in range(n)]
+        donor = [("sys", 1, plain_vals((k * 7) % 11 - 3, 5000 + k, k % 2 == 0)) for k in range(64)]
+        for lim in lims:
+            base = [("scale", 4), ("new", None, 3), ("new", None, 0)] + frames + donor + [("pset", 0, "maxlen", lim)]
+            yield base + [("copy", 0), ("classify", 2, 2, [0, 3, 6]), ("classify", 0, 2, [0, 3, 6]), ("eq", 0, 2),
+                          ("shoot", 0, 0), ("shoot", 0, n // 2), ("shoot", 0, n - 3), ("shoot", 2, n - 4),
+                          ("set", 2, n // 2, "order", [9]), ("seta", 2, n // 3, "pos", 17), ("classify", 0, 2, [0, 3, 6])]
+            yield base + [("rev", 0, None, True), ("rev", 0, (1, 1, 0, True), True), ("classify", 2, 2, [0, 3, 6]),
+                          ("classify", 3, 1, [6, 0, 3]), ("rev", 2, None, True), ("eq", 0, 4)]
+            for m in ((n - 1, None) if light else (n - 1, n, n + 1, None)):
+                yield base + [("new", m, 0), ("iadd", 2, 0), ("classify", 2, 2, [0, 3, 6]), ("iadd", 2, 1), ("shoot", 2, 1)]
+            for ov in (False, True):
+                tot = n + 64 - (1 if ov else 0)
+                for ml in ((tot - 1, None) if light else (tot - 1, tot, tot + 1, None, n - 1)):
+                    yield base + [("paste", 0, 1, ov, ml), ("classify", 2, 2, [0, 3, 6]), ("copy", 2), ("rev", 2, None, True),
+                                  ("paste", 1, 0, ov, ml), ("shoot", 2, n)]
+
+
 def log_key(tok):
     if tok.startswith("min="):
         return "log:classify"
@@ -1376,7 +1494,7 @@ def gen_program(rng, nops):
                 elif mls[i] == mls[j]:
                     cap = mls[i]
                 elif mls[i] is None or mls[j] is None:
-                    continue   # TypeError, no new path
+                    cap = mls[j] if mls[i] is None else mls[i]
                 else:
                     cap = max(mls[i], mls[j])
                 tot = lens[i] + lens[j] - (1 if ov and lens[j] else 0)
@@ -1463,7 +1581,7 @@ def mk(Path, System, ops, maxlen=100_000):
     p = Path(maxlen=maxlen)
     for o in ops:
         s = System()
-        s.order = [float(o)]
+        s.order = [real(o)]
         p.phasepoints.append(s)
     return p
 
@@ -1472,11 +1590,11 @@ def code_cls(p, intf):
     def vi(get):
         try:
             v, i = get()
-            return f"{int(v)},{int(i)}"
+            return f"{tok(v)},{int(i)}"
         except Exception as e:  # noqa: BLE001
             return err_kind(e)
     try:
-        s, e, m, c = p.check_interfaces([float(x) for x in intf])
+        s, e, m, c = p.check_interfaces([real(x) for x in intf])
         chk = f"{s},{e},{m}," + ("".join("1" if b else "0" for b in c) if c else "-")
     except Exception as ex:  # noqa: BLE001
         chk = err_kind(ex)
@@ -1505,11 +1623,11 @@ def want_cls(ops, intf):
     return omin, omax, (side(first, "?"), side(last, "None"), "M" if cross[1] else "*", cross)
 
 
-def check_cls(ctx, ops, intf, got):
-    """property predicate on the implementation's answer `got` (canonical string)"""
+def check_cls(ctx, ops, intf, got, S=1):
+    """property predicate on the implementation's answer `got` (canonical string); everything in scaled units"""
     omin, omax, chk = want_cls(list(ops), list(intf))
     parts = dict(x.split("=", 1) for x in got.split(" "))
-    rep = {"kind": "cls", "ops": list(ops), "intf": list(intf), "code": got}
+    rep = {"kind": "cls", "ops": list(ops), "intf": list(intf), "code": got, "scale": S}
     if omin is not None:
         if parts["min"] != f"{omin[0]},{omin[1]}":
             ctx.fail("C15:ordermin", f"ordermin {parts['min']} but min of the sequence is {omin} (first index)", rep)
@@ -1528,7 +1646,7 @@ def check_cls(ctx, ops, intf, got):
 
 def code_side(p, which, left, right):
     try:
-        r = (p.get_start_point if which == "sp" else p.get_end_point)(float(left), None if right is None else float(right))
+        r = (p.get_start_point if which == "sp" else p.get_end_point)(real(left), None if right is None else real(right))
         return str(r)
     except Exception as e:  # noqa: BLE001
         return err_kind(e)
@@ -1564,18 +1682,26 @@ def run(ctx):
     progs += [gen_eq(rng) for _ in range(1500 if ctx.quick else 30000)]
     progs += [gen_trunc(rng) for _ in range(800 if ctx.quick else 15000)]
     progs += list(systematic_shoot(6 if ctx.quick else 9))
+    if ctx.quick:
+        progs += list(systematic_long([(64, (None, 63, 64, 65))]))
+        progs += list(systematic_long([(200, (199, 201)), (1000, (999,))], light=True))
+    else:
+        progs += list(systematic_long([(n, (None, n - 1, n, n + 1)) for n in (64, 200, 1000)]))
     progs += list(systematic_upd(3 if ctx.quick else 5))
     lines, code_out = [], []
     shrunk = set()
+    # every program runs at a dyadic scale (see `real`): same integers, real values h / S
+    progs = [pr if pr and pr[0][0] == "scale" else [("scale", rng.choice(SCALES))] + list(pr) for pr in progs]
     for prog in progs:
         m = run_program(mods, prog, check=True)
         code_out.append(m.line())
-        lines.append("prog " + " ".join(op_tokens(op) for op in prog))
+        lines.append(prog_line(prog))
+        ctx.hit(f"scale={prog_scale(prog)}")
         ctx.count(1, branch="program")
         for b in m.branches:
             ctx.hit("op:" + b)
-        for tok in m.log:
-            ctx.hit(log_key(tok))
+        for tk in m.log:
+            ctx.hit(log_key(tk))
         if any(b.split(":")[0] in ("paste", "rev", "copy", "iadd", "classify", "eq", "ne", "shoot", "upd") for b in m.branches):
             ctx.distinct(lines[-1])
         for sig, what in m.fails:
@@ -1584,8 +1710,7 @@ def run(ctx):
                 shrunk.add(sig)
                 small = shrink(mods, prog, sig)
                 what = next((w for s_, w in run_program(mods, small).fails if s_ == sig), what)
-            ctx.fail(sig, what, {"kind": "prog", "prog": [list(op) for op in small],
-                                 "line": "prog " + " ".join(op_tokens(op) for op in small)})
+            ctx.fail(sig, what, {"kind": "prog", "prog": [list(op) for op in small], "line": prog_line(small)})
         if len(ctx.fails) >= 20:   # enough failing inputs: do not let badly broken code run into the time limit
             ctx.extra["programs_stopped_early_after"] = len(lines)
             break
@@ -1593,7 +1718,7 @@ def run(ctx):
         out = ctx.driver(lines)
         for prog, c, mo in zip(progs[:len(lines)], code_out, out):
             if c != mo:
-                ctx.disagree({"fn": "op program", "prog": " ".join(op_tokens(op) for op in prog)}, c, mo)
+                ctx.disagree({"fn": "op program", "scale": prog_scale(prog), "prog": prog_line(prog)}, c, mo)
     for k in (0, 1):
         ctx.sample({"prog": lines[k], "code": code_out[k]})
 
@@ -1606,22 +1731,23 @@ def run(ctx):
     for L in range(0, maxlen + 1):
         for ops in itertools.product(levels, repeat=L):
             for t in triples:
-                cls_cases.append((ops, t))
+                cls_cases.append((ops, t, 4))          # quarter units: real levels -0.25 … 0.75
             if L <= 4:
                 for t in short_intf:
-                    cls_cases.append((ops, t))
+                    cls_cases.append((ops, t, 4))
     for _ in range(500 if ctx.quick else 20000):
         L = rng.randint(7, 40)
         ops = tuple(rng.randint(-3, 6) for _ in range(L))
         t = tuple(rng.randint(-2, 5) for _ in range(3))
-        cls_cases.append((ops, t))
+        cls_cases.append((ops, t, rng.choice(SCALES)))
     ctx.extra["exhaustive_part"] = (f"classification: all sequences of length ≤ {maxlen} over 5 levels × {len(triples)} "
                                     f"interface triples (+ interface lists of length 0,1,2,4 for length ≤ 4)")
     ctx.exhaustive = False
     code_c = []
     last_ops, p = None, None
-    for ops, t in cls_cases:
+    for ops, t, S in cls_cases:
         try:
+            set_scale(S)
             if ops is not last_ops:
                 p = mk(Path, System, ops)
                 last_ops = ops
@@ -1629,14 +1755,14 @@ def run(ctx):
         except Exception as e:  # noqa: BLE001
             code_c.append(f"min=raised max=raised chk=raised:{type(e).__name__}")
     if have_model:
-        out = ctx.driver([f"cls {lst(t)} {lst(ops)}" for ops, t in cls_cases])
-    for k, (ops, t) in enumerate(cls_cases):
+        out = ctx.driver([f"cls {lst(t)} {lst(ops)}" for ops, t, _S in cls_cases])
+    for k, (ops, t, S) in enumerate(cls_cases):
         ctx.count(1, branch="classification")
         if ops:
             ctx.distinct(("cls", t, ops))
         if have_model and code_c[k] != out[k]:
-            ctx.disagree({"fn": "ordermin/ordermax/check_interfaces", "ops": ops, "intf": t}, code_c[k], out[k])
-        check_cls(ctx, ops, t, code_c[k])
+            ctx.disagree({"fn": "ordermin/ordermax/check_interfaces", "ops": ops, "intf": t, "scale": S}, code_c[k], out[k])
+        check_cls(ctx, ops, t, code_c[k], S)
         if k % 40009 == 7:
             ctx.sample({"fn": "cls", "ops": list(ops), "intf": list(t), "code": code_c[k]})
     # get_start_point / get_end_point incl. right=None and left > right
@@ -1646,6 +1772,7 @@ def run(ctx):
             for (l, r) in ((0, 2), (1, 1), (1, None), (2, 0), (0, None)):
                 se_cases.append((ops, l, r))
     code_s = []
+    set_scale(4)
     for ops, l, r in se_cases:
         try:
             p = mk(Path, System, ops)
@@ -1666,10 +1793,21 @@ def run(ctx):
             we = "L" if ops[-1] <= l else "R" if ops[-1] >= rr else "None"
             if code_s[k] != (ws, we):
                 ctx.fail("C15:start-end-classification", f"start/end {code_s[k]} expected {(ws, we)}",
-                         {"kind": "se", "ops": list(ops), "left": l, "right": r})
+                         {"kind": "se", "ops": list(ops), "left": l, "right": r, "scale": 4})
     ctx.assumptions = [a for a in ctx.assumptions if not a.startswith("[C15]")]
     ctx.assumptions += ["[C15] " + a for a in [
-        "order values, energies and the array-valued fields are small integers (exact as floats); no NaN order values",
+        "order values, interfaces and classification targets are dyadic rationals h/S (S in 1, 2, 4, 8, 2^20 per "
+        "program; exhaustive families in quarter units), exact as floats and read back exactly (fractions, no rounding); "
+        "the Int model is fed the integers h (all comparisons are scale invariant); energies and array-valued fields "
+        "are small integers",
+        "NaN order values are OUTSIDE: nothing in this tie generates or judges them (System() starts with [-nan] and is "
+        "always overwritten before use)",
+        "the AssertionError of get_start_point / get_end_point for left > right (model: Err.assert) exists only when "
+        "Python runs without -O; the tie runs without -O",
+        "reversing twice: a path LONGER than its limit (reachable through load_paths_from_disk or a lowered maxlen) is "
+        "not restored (Lean: reverse_reverse_overlimit_counterexample); the tie evaluates these cases, judges them "
+        "against what the model proves (the last maxlen frames, in order) and counts them in the histogram "
+        "(op:rev:twice-overlimit-not-restored / -restored)",
         "`self += self` (iteration over the list being extended) is outside the model and not generated",
         "object identity is tracked for System objects, the `order` list and the pos / vel / box arrays and the temperature "
         "dict (one-element containers): both re-assignment and in-place mutation (x[0] = v, x[...] = v, fill, dict item / "
@@ -1708,6 +1846,7 @@ def replay(ctx, obj):
         print("final state:", m.line())
         return 1 if m.fails else 0
     if kind == "cls":
+        set_scale(r.get("scale", 1))
         p = mk(Path, System, r["ops"])
         got = code_cls(p, r["intf"])
 
@@ -1718,10 +1857,11 @@ def replay(ctx, obj):
                 print("still fails:", sig, what)
                 self.n += 1
         c = C()
-        check_cls(c, r["ops"], r["intf"], got)
+        check_cls(c, r["ops"], r["intf"], got, r.get("scale", 1))
         print("code:", got)
         return 1 if c.n else 0
     if kind == "se":
+        set_scale(r.get("scale", 1))
         p = mk(Path, System, r["ops"])
         l, rr = r["left"], r["right"]
         got = (code_side(p, "sp", l, rr), code_side(p, "ep", l, rr))
